@@ -168,7 +168,9 @@ def run_genver_case(case):
 
 # ---------------------------------------------------------------- (3) key2jwk / jwk2key
 KEYTYPES = ["rsa2048", "rsa3072", "P-256", "P-384", "P-521", "secp256k1", "ed25519", "ed448", "oct32", "oct48", "oct64", "oct100", "oct512", "pss",
-            "oct33:0a", "oct48:0a", "oct64:0a", "oct40:0d", "oct64:00", "oct32:0a", "oct50:20"]   # oct keys are arbitrary bytes: newline / CR / NUL / space at the end
+            "oct33:0a", "oct48:0a", "oct64:0a", "oct40:0d", "oct64:00", "oct32:0a", "oct50:20",
+            # the same kinds of key in the other standard file encodings: EC public point compressed / hybrid, traditional (SEC1 / PKCS#1) private key PEM
+            "P-256/compressed", "P-384/compressed", "P-521/compressed", "secp256k1/compressed", "P-521/hybrid", "P-256/hybrid", "P-256/trad", "P-521/trad", "rsa2048/trad"]   # oct keys are arbitrary bytes: newline / CR / NUL / space at the end
 POOL = {}   # (type, short, slot) -> (priv/bin path, pub path): generated once per process so that a case is deterministic
 def setup_pool():
     d = os.path.join(WORK, "pool"); os.makedirs(d)
@@ -176,11 +178,14 @@ def setup_pool():
         for short in (0, 1):
             for slot in range(3 if typ.startswith(("P-", "secp")) else 1):
                 if short and not typ.startswith(("P-", "secp")): continue
-                pre = os.path.join(d, f"{typ}-{short}-{slot}")
+                pre = os.path.join(d, f"{typ.replace('/', '_')}-{short}-{slot}")
                 if typ.startswith("oct"): helper(["gen", typ, pre, "0"]); POOL[(typ, short, slot)] = (pre + ".bin", pre + ".bin")
                 elif typ == "pss": helper(["genpss", pre]); POOL[(typ, short, slot)] = (pre + ".pem", pre + "_pub.pem")
+                elif typ == "rsa2048/trad": helper(["gen", "rsa2048", pre, "0", "trad"]); POOL[(typ, short, slot)] = (pre + ".pem", pre + "_pub.pem")
                 elif typ.startswith("rsa"): helper(["copyfix", "rsa_" + typ[3:], pre]); POOL[(typ, short, slot)] = (pre + ".pem", pre + "_pub.pem")
-                else: helper(["gen", typ, pre, str(short)]); POOL[(typ, short, slot)] = (pre + ".pem", pre + "_pub.pem")
+                else:
+                    base, _, form = typ.partition("/"); pre2 = pre
+                    helper(["gen", base, pre2, str(short)] + ([form] if form else [])); POOL[(typ, short, slot)] = (pre2 + ".pem", pre2 + "_pub.pem")
 
 
 counter = [0]
@@ -307,6 +312,14 @@ def main():
             f = last.get("f"); stats["violations"].append({"signature": f.sig, "what": f.what, "replay": {"kind": "verify", "case": f.case}})
     if not stats["violations"]: run_property(run_genver_case, genver_cases(), ng, "genver")
     if not stats["violations"]: run_property(run_convert_case, convert_cases, nc, "convert")
+    # many keys in one key2jwk / jwk2key run: 255, 256, 257 key files (counts at which a narrow counter or a fixed table gives out)
+    if not stats["violations"] and A.worker in (4, 5, 6):
+        n = {4: 255, 5: 256, 6: 257}[A.worker]; types = ["oct32", "ed25519", "P-256", "oct48:0a", "P-521/compressed", "rsa2048"]
+        case = {"keys": [(types[i % len(types)], "priv" if i % 3 else "pub", bool(i & 1), i % 3) for i in range(n)], "o_style": 0, "d_style": 0, "quiet": True, "flag_style": 0}
+        cls("key2jwk-runs-with-255-257-keys")
+        try: guarded(run_convert_case, case)
+        except AssertionError:
+            f = last.get("f"); stats["violations"].append({"signature": f.sig, "what": f.what, "replay": {"kind": "convert", "case": f.case}})
     # usage / list options of every tool in both spellings
     if A.worker == 0:
         for t, opts in (("jwt-verify", ["-h", "--help", "-l", "--list"]), ("jwt-generate", ["-h", "--help", "-l", "--list"]), ("key2jwk", ["-h", "--help", "-l", "--list"]), ("jwk2key", ["-h", "--help"])):
